@@ -72,20 +72,46 @@ var IntVals = ValCodec[int]{Name: "int", To: func(id int) int { return id }, Bac
 // generic adapter
 
 type adapter[K any, V any] struct {
-	t    art.Tree[K, V]
-	to   func([]byte) K
-	from func(K) []byte
-	vc   ValCodec[V]
+	t     art.Tree[K, V]
+	to    func([]byte) K
+	from  func(K) []byte
+	vc    ValCodec[V]
+	reuse func(K) // what the caller does with its key argument after the call returned (nil: nothing)
 }
 
-func (a *adapter[K, V]) Insert(k []byte, v int) { a.t.Insert(a.to(k), a.vc.To(v)) }
+// done models a caller that reuses its key buffer as soon as the call is over
+// (byte-slice keys only): the argument is overwritten.
+func (a *adapter[K, V]) done(k K) {
+	if a.reuse != nil {
+		a.reuse(k)
+	}
+}
+
+func scribble(b []byte) {
+	for i := range b {
+		b[i] = 0xEE
+	}
+}
+
+func (a *adapter[K, V]) Insert(k []byte, v int) {
+	kk := a.to(k)
+	a.t.Insert(kk, a.vc.To(v))
+	a.done(kk)
+}
 func (a *adapter[K, V]) Search(k []byte) (int, bool) {
-	v, ok := a.t.Search(a.to(k))
+	kk := a.to(k)
+	v, ok := a.t.Search(kk)
+	a.done(kk)
 	return a.back(v, ok), ok
 }
-func (a *adapter[K, V]) Delete(k []byte) bool { return a.t.Delete(a.to(k)) }
-func (a *adapter[K, V]) Size() int            { return a.t.Size() }
-func (a *adapter[K, V]) Tree() any            { return a.t }
+func (a *adapter[K, V]) Delete(k []byte) bool {
+	kk := a.to(k)
+	ok := a.t.Delete(kk)
+	a.done(kk)
+	return ok
+}
+func (a *adapter[K, V]) Size() int { return a.t.Size() }
+func (a *adapter[K, V]) Tree() any { return a.t }
 func (a *adapter[K, V]) back(v V, ok bool) int {
 	if !ok {
 		return 0
@@ -638,7 +664,7 @@ func NewSubject[V any](k Kind, vc ValCodec[V]) Subject {
 				to: func(b []byte) string { return string(b) }, from: func(s string) []byte { return []byte(s) }}
 		}
 		return &adapter[[]byte, V]{t: art.NewAlphaSortedTree[[]byte, V](), vc: vc,
-			to: clone, from: clone}
+			to: clone, from: clone, reuse: scribble}
 	case *collKind:
 		c := CollatorConfigs[kk.cfg]() // the tree's own collator instance
 		switch kk.ktype {
@@ -658,7 +684,7 @@ func NewSubject[V any](k Kind, vc ValCodec[V]) Subject {
 			} else {
 				t = art.NewCollationSortedTree[[]byte, V](art.WithCollator[[]byte, V](c))
 			}
-			return &adapter[[]byte, V]{t: t, vc: vc, to: clone, from: clone}
+			return &adapter[[]byte, V]{t: t, vc: vc, to: clone, from: clone, reuse: scribble}
 		default: // runes: only the default collator can be configured (WithCollator is declared for chars)
 			return &adapter[[]rune, V]{t: art.NewCollationSortedTree[[]rune, V](), vc: vc,
 				to:   func(b []byte) []rune { return []rune(string(b)) },
